@@ -25,4 +25,6 @@ fn main() {
     // Other cfgs (rustc-check-cfg)
     println!("cargo:rustc-check-cfg=cfg(fast_tlsh_tests_without_debug_assertions)");
     println!("cargo:rustc-check-cfg=cfg(fast_tlsh_tests_reduce_on_miri)");
+    // Verification hooks (enabled only by `--cfg fast_tlsh_verif`)
+    println!("cargo:rustc-check-cfg=cfg(fast_tlsh_verif)");
 }
